@@ -54,7 +54,7 @@ TsMake(y4, mo, d, hh, mi, ss, d1, d2, c1, c2, frac, zone) ==
 TsBase(ext, zone) == TsMake(B("2015"), B("08"), B("30"), B("12"), B("36"), B("00"), ext, ext, ext, ext, <<>>, zone)
 TsYears == << B("0000"), B("0001"), B("0999"), B("1000"), B("1900"), B("2000"), B("2100"), B("9999") >>
 TsCalYears == << B("1900"), B("2000"), B("2015"), B("2016"), B("2100") >>
-TsZones == << B("Z"), B("+0530"), B("-02:45"), B("+00:00"), B("-1900"), B("+19:59") >>
+TsZones == << B("Z"), B("+0530"), B("-02:45"), B("+00:00"), B("-1900"), B("+19:59"), B("+00:30"), B("-0045"), B("-00:01") >>
 TsFracDigits(n, pat) == [i \in 1..n |-> CASE pat = 1 -> 48 + (i % 10) [] pat = 2 -> 57 [] pat = 3 -> 48]
 TsAffix == <<
     B(" 20150830T123600Z"), B("20150830T123600Z "), <<10>> \o B("20150830T123600Z"), B("20150830T123600Z") \o <<10>>,
@@ -82,6 +82,11 @@ KeyNames == << <<>>, B("us-east-1"), <<195, 169>>, [i \in 1..300 |-> 97 + (i % 2
 KeyChainSecrets == << KeySecretOfLen(40, 1), <<>>, KeySecretOfLen(1, 1), KeySecretOfLen(39, 2), KeySecretOfLen(40, 2),
                       KeySecretOfLen(40, 3), KeySecretOfLen(20, 1), B("wJalrXUtnFEMI/K7MDENG+bPxRfiCYEXAMPLEKEY") >>
 
+\* C17: also secrets the key type refuses (too long: e.g. a 40-character key with a trailing newline)
+LeakSecrets == KeyChainSecrets \o << B("wJalrXUtnFEMI/K7MDENG+bPxRfiCYEXAMPLEKEY") \o <<10>>,
+                                     B("wJalrXUtnFEMI/K7MDENG+bPxRfiCYEXAMPLEKEY") \o <<13, 10>>,
+                                     KeySecretOfLen(64, 1) >>
+
 HvalSigma == <<32, 97, 98, 44, 9, 233>>
 
 \* C08 size ladder (canonical URI length around the http crate's 65534 limit, and far beyond)
@@ -94,7 +99,7 @@ ErrKinds == << "ExpiredToken", "IO", "InternalServiceError", "InvalidBodyEncodin
 ErrVias == << "direct", "box", "foreign", "io" >>
 
 \* C05 container: operation alphabet
-VNames == << B("x-a"), B("X-A"), B("x-b"), B("X-a") >>
+VNames == << B("x-a"), B("X-A"), B("x-ab"), B("X-a") >>
 VLists == << "always", "ifin", "prefix" >>
 \* op k of 1..24: (add|remove) x list x name
 VOp(k) == [op |-> IF ((k - 1) \div 12) = 0 THEN "add" ELSE "remove",
@@ -111,6 +116,7 @@ Dim(k) ==
       [] Family = "query_lists"  -> IF k <= Bound THEN 80 ELSE 0
       [] Family = "query_ampamp" -> IF k = 1 THEN 3 ELSE IF k <= Bound + 1 THEN 80 ELSE 0
       [] Family = "query_bytes"  -> IF k <= 3 THEN <<256, 5, 3>>[k] ELSE 0
+      [] Family = "query_escapes" -> IF k <= 3 THEN <<128, 128, 2>>[k] ELSE 0
       [] Family = "ts_field"     -> IF k <= 3 THEN <<5, 100, 2>>[k] ELSE 0
       [] Family = "ts_year"      -> IF k <= 2 THEN <<Len(TsYears), 2>>[k] ELSE 0
       [] Family = "ts_offset"    -> IF k <= 4 THEN <<2, 100, 100, 2>>[k] ELSE 0
@@ -124,7 +130,7 @@ Dim(k) ==
       [] Family = "foldsize"     -> IF k <= 2 THEN <<Len(FoldSizes), Len(FoldPaths)>>[k] ELSE 0
       [] Family = "errtable"     -> IF k <= 2 THEN <<Len(ErrKinds), Len(ErrVias)>>[k] ELSE 0
       [] Family = "builders"     -> IF k = 1 THEN 1 ELSE 0
-      [] Family = "leakfn"       -> IF k = 1 THEN Len(KeyChainSecrets) ELSE 0
+      [] Family = "leakfn"       -> IF k = 1 THEN Len(LeakSecrets) ELSE 0
       [] Family = "vreqs"        -> IF k = 1 THEN Len(VInits) ELSE IF k <= Bound + 1 THEN 24 ELSE 0
 
 \* does this node denote a case?  (variable-length families emit at every depth)
@@ -203,10 +209,13 @@ Case ==
       [] Family = "foldsize" -> [op |-> "foldsize", n |-> FoldSizes[idx[1]], path |-> FoldPaths[idx[2]]]
       [] Family = "errtable" -> [op |-> "err", kind |-> ErrKinds[idx[1]], via |-> ErrVias[idx[2]]]
       [] Family = "builders" -> [op |-> "builders"]
-      [] Family = "leakfn" -> [op |-> "leakfn", secret |-> KeyChainSecrets[idx[1]]]
+      [] Family = "leakfn" -> [op |-> "leakfn", secret |-> LeakSecrets[idx[1]]]
       [] Family = "vreqs" ->
             [op |-> "vreqs", always |-> VInits[idx[1]], ifin |-> VInits[idx[1]], prefix |-> VInits[idx[1]],
              ops |-> [i \in 1..(Len(idx) - 1) |-> VOp(idx[i + 1])]]
+      [] Family = "query_escapes" ->
+            LET e == <<37, idx[1] - 1, idx[2] - 1>> IN
+            [op |-> "query", q |-> IF idx[3] = 1 THEN B("v=") \o e ELSE B("a") \o e \o B("b=1&c=2")]
       [] Family = "query_bytes" ->
             LET sp == Spelling(idx[1] - 1, idx[2]) IN
             [op |-> "query", q |-> CASE idx[3] = 1 -> B("k=") \o sp
